@@ -94,6 +94,9 @@ def build_metric(name):
     raise ValueError(name)
 
 
+GREATER_IS_BETTER = {"neg_mae", "neg_asym"}        # the direction each metric of build_metric is declared with
+
+
 def metric_reference(name):
     """the textbook value of the metric `build_metric(name)` as a plain function of (y_true, y_pred), written here from the definition
     (None for user-made scorers, whose function is the definition)"""
